@@ -1,6 +1,7 @@
 (* Model/Dispatch.v — executable model of SecsHandler._handle_stream_function / _handle_unknown_functions as the GEM
    handlers use it while COMMUNICATING, over the callback tables regenerated into Gen/Callbacks.v.
-   Hand-modelled (tied by correspondence): the dispatch itself and that every reply is sent with message.header.system. *)
+   The dispatch is hand-written here and proved equal to the decision read from the source (Gen/SecsDispatch.v, Proofs/SecsDispatchProofs.v);
+   that every reply is sent with message.header.system is checked by the translator and observed by the correspondence run. *)
 From SG Require Import Base.Prelude Gen.Callbacks Gen.Catalogue.
 Open Scope Z_scope.
 
